@@ -395,7 +395,12 @@ func (ex *Exec) checkJoinResult(h, via *NodeH, err error) {
 		// scenarios (no graceful leaves) are the ones that decide this.
 		return
 	}
-	ex.res.Violate("C08", "join-nonretryable/"+errClassName(err), "join of n%d (id %d) via %s failed with non-retryable error: %v", h.Slot, h.ID, via.Name, err)
+	class := "join-nonretryable/" + errClassName(err)
+	if g := ex.ghostPredecessor(); g != "" && (errors.Is(err, spec.ErrNodeNotStarted) || errors.Is(err, spec.ErrNodeNoSuccessor)) {
+		// consequence of a recognised root cause (see ghostPredecessor)
+		class = g
+	}
+	ex.res.Violate("C08", class, "join of n%d (id %d) via %s failed with non-retryable error: %v", h.Slot, h.ID, via.Name, err)
 }
 
 func errClassName(err error) string {
@@ -889,4 +894,24 @@ func (ex *Exec) observeError(call simnet.Call) {
 	if originRetryable != callerRetryable {
 		ex.res.Violate("C14", "retryability-changed/"+w.Meta["cause"], "%s from %s to %s: origin error %q (%s) was retryable=%v at the origin but retryable=%v at the caller", call.Method, call.To, call.From, w.Msg, w.Meta["cause"], originRetryable, callerRetryable)
 	}
+}
+
+// ghostPredecessor recognises one root cause (the C07 finding "RequestToJoin
+// handled, response lost or later than the caller's deadline"): a node admitted
+// a joiner whose Join then gave up, so a node that never became part of the
+// ring is some member's predecessor and later join requests are routed to it.
+func (ex *Exec) ghostPredecessor() string {
+	for _, as := range ex.adm {
+		for _, a := range as {
+			if a.kind != "join" {
+				continue
+			}
+			for _, h := range ex.c.All {
+				if h.ID == a.peer && !h.Joined && h.JoinErr != nil {
+					return "ghost-predecessor/join-admitted-but-joiner-gave-up"
+				}
+			}
+		}
+	}
+	return ""
 }
